@@ -1,1 +1,391 @@
-//! oracle for belt — to be written from the specification
+//! BelT (STB 34.101.31-2020): block cipher belt-block (section 6.1) and wide-block transformation belt-wbl
+//! (section 6.2), written from the standard's description.
+//!
+//! Conventions of the standard: an octet string u1 u2 u3 u4 is identified with the number
+//! u1 + 2^8 u2 + 2^16 u3 + 2^24 u4 (little-endian); [+] / [-] are addition / subtraction mod 2^32;
+//! RotHi^r is the cyclic shift towards the high bits (rotate left of the number);
+//! <i>_32 / <i>_128 is the number i as a 32 / 128-bit word.
+//!   G_r(u) = RotHi^r( H(u1) || H(u2) || H(u3) || H(u4) )
+//! The substitution H is given in the standard as a table (data; taken from belt-block/src/consts.rs, where it is
+//! stored pre-rotated as H5[x] = H(x) << 5 -- the first row B1 94 BA C8 0A 08 F5 3B ... is the standard's).
+
+pub const H: [u8; 256] = [
+    0xB1, 0x94, 0xBA, 0xC8, 0x0A, 0x08, 0xF5, 0x3B, 0x36, 0x6D, 0x00, 0x8E, 0x58, 0x4A, 0x5D, 0xE4,
+    0x85, 0x04, 0xFA, 0x9D, 0x1B, 0xB6, 0xC7, 0xAC, 0x25, 0x2E, 0x72, 0xC2, 0x02, 0xFD, 0xCE, 0x0D,
+    0x5B, 0xE3, 0xD6, 0x12, 0x17, 0xB9, 0x61, 0x81, 0xFE, 0x67, 0x86, 0xAD, 0x71, 0x6B, 0x89, 0x0B,
+    0x5C, 0xB0, 0xC0, 0xFF, 0x33, 0xC3, 0x56, 0xB8, 0x35, 0xC4, 0x05, 0xAE, 0xD8, 0xE0, 0x7F, 0x99,
+    0xE1, 0x2B, 0xDC, 0x1A, 0xE2, 0x82, 0x57, 0xEC, 0x70, 0x3F, 0xCC, 0xF0, 0x95, 0xEE, 0x8D, 0xF1,
+    0xC1, 0xAB, 0x76, 0x38, 0x9F, 0xE6, 0x78, 0xCA, 0xF7, 0xC6, 0xF8, 0x60, 0xD5, 0xBB, 0x9C, 0x4F,
+    0xF3, 0x3C, 0x65, 0x7B, 0x63, 0x7C, 0x30, 0x6A, 0xDD, 0x4E, 0xA7, 0x79, 0x9E, 0xB2, 0x3D, 0x31,
+    0x3E, 0x98, 0xB5, 0x6E, 0x27, 0xD3, 0xBC, 0xCF, 0x59, 0x1E, 0x18, 0x1F, 0x4C, 0x5A, 0xB7, 0x93,
+    0xE9, 0xDE, 0xE7, 0x2C, 0x8F, 0x0C, 0x0F, 0xA6, 0x2D, 0xDB, 0x49, 0xF4, 0x6F, 0x73, 0x96, 0x47,
+    0x06, 0x07, 0x53, 0x16, 0xED, 0x24, 0x7A, 0x37, 0x39, 0xCB, 0xA3, 0x83, 0x03, 0xA9, 0x8B, 0xF6,
+    0x92, 0xBD, 0x9B, 0x1C, 0xE5, 0xD1, 0x41, 0x01, 0x54, 0x45, 0xFB, 0xC9, 0x5E, 0x4D, 0x0E, 0xF2,
+    0x68, 0x20, 0x80, 0xAA, 0x22, 0x7D, 0x64, 0x2F, 0x26, 0x87, 0xF9, 0x34, 0x90, 0x40, 0x55, 0x11,
+    0xBE, 0x32, 0x97, 0x13, 0x43, 0xFC, 0x9A, 0x48, 0xA0, 0x2A, 0x88, 0x5F, 0x19, 0x4B, 0x09, 0xA1,
+    0x7E, 0xCD, 0xA4, 0xD0, 0x15, 0x44, 0xAF, 0x8C, 0xA5, 0x84, 0x50, 0xBF, 0x66, 0xD2, 0xE8, 0x8A,
+    0xA2, 0xD7, 0x46, 0x52, 0x42, 0xA8, 0xDF, 0xB3, 0x69, 0x74, 0xC5, 0x51, 0xEB, 0x23, 0x29, 0x21,
+    0xD4, 0xEF, 0xD9, 0xB4, 0x3A, 0x62, 0x28, 0x75, 0x91, 0x14, 0x10, 0xEA, 0x77, 0x6C, 0xDA, 0x1D,
+];
+
+/// H applied to each of the four octets of the word, then RotHi^r.
+pub fn g(u: u32, r: u32) -> u32 {
+    let b = u.to_le_bytes();
+    let s = [H[b[0] as usize], H[b[1] as usize], H[b[2] as usize], H[b[3] as usize]];
+    u32::from_le_bytes(s).rotate_left(r)
+}
+pub fn g5(u: u32) -> u32 {
+    g(u, 5)
+}
+pub fn g13(u: u32) -> u32 {
+    g(u, 13)
+}
+pub fn g21(u: u32) -> u32 {
+    g(u, 21)
+}
+
+fn le32(b: &[u8], o: usize) -> u32 {
+    (b[o] as u32) | ((b[o + 1] as u32) << 8) | ((b[o + 2] as u32) << 16) | ((b[o + 3] as u32) << 24)
+}
+fn put_le32(o: &mut [u8; 16], at: usize, v: u32) {
+    let b = v.to_le_bytes();
+    o[at] = b[0];
+    o[at + 1] = b[1];
+    o[at + 2] = b[2];
+    o[at + 3] = b[3];
+}
+
+/// Round keys K[1..=56]: the key theta = theta_1 || ... || theta_8 repeated seven times (K[i] = theta_{((i-1) mod 8)+1}).
+/// Index 0 is unused so that the indices are the standard's.
+pub fn round_keys(key: &[u8; 32]) -> [u32; 57] {
+    let mut k = [0u32; 57];
+    let mut i = 1;
+    while i <= 56 {
+        k[i] = le32(key, 4 * ((i - 1) % 8));
+        i += 1;
+    }
+    k
+}
+
+/// belt-block encryption (6.1.3) with G5, G13, G21 as parameters (leaves `g5`, `g13`, `g21` of the crate).
+pub fn encrypt_with<A: Fn(u32) -> u32, B: Fn(u32) -> u32, C: Fn(u32) -> u32>(
+    key: &[u8; 32],
+    x: &[u8; 16],
+    g5: A,
+    g13: B,
+    g21: C,
+) -> [u8; 16] {
+    let k = round_keys(key);
+    let (mut a, mut b, mut c, mut d) = (le32(x, 0), le32(x, 4), le32(x, 8), le32(x, 12));
+    let mut i = 1usize;
+    while i <= 8 {
+        b ^= g5(a.wrapping_add(k[7 * i - 6]));
+        c ^= g21(d.wrapping_add(k[7 * i - 5]));
+        a = a.wrapping_sub(g13(b.wrapping_add(k[7 * i - 4])));
+        let e = g21(b.wrapping_add(c).wrapping_add(k[7 * i - 3])) ^ (i as u32);
+        b = b.wrapping_add(e);
+        c = c.wrapping_sub(e);
+        d = d.wrapping_add(g13(c.wrapping_add(k[7 * i - 2])));
+        b ^= g21(a.wrapping_add(k[7 * i - 1]));
+        c ^= g5(d.wrapping_add(k[7 * i]));
+        // a <-> b, c <-> d, b <-> c
+        let (na, nb, nc, nd) = (b, d, a, c);
+        a = na;
+        b = nb;
+        c = nc;
+        d = nd;
+        i += 1;
+    }
+    // Y = b || d || a || c
+    let mut y = [0u8; 16];
+    put_le32(&mut y, 0, b);
+    put_le32(&mut y, 4, d);
+    put_le32(&mut y, 8, a);
+    put_le32(&mut y, 12, c);
+    y
+}
+
+/// belt-block decryption (6.1.4).
+pub fn decrypt_with<A: Fn(u32) -> u32, B: Fn(u32) -> u32, C: Fn(u32) -> u32>(
+    key: &[u8; 32],
+    y: &[u8; 16],
+    g5: A,
+    g13: B,
+    g21: C,
+) -> [u8; 16] {
+    let k = round_keys(key);
+    let (mut a, mut b, mut c, mut d) = (le32(y, 0), le32(y, 4), le32(y, 8), le32(y, 12));
+    let mut i = 8usize;
+    while i >= 1 {
+        b ^= g5(a.wrapping_add(k[7 * i]));
+        c ^= g21(d.wrapping_add(k[7 * i - 1]));
+        a = a.wrapping_sub(g13(b.wrapping_add(k[7 * i - 2])));
+        let e = g21(b.wrapping_add(c).wrapping_add(k[7 * i - 3])) ^ (i as u32);
+        b = b.wrapping_add(e);
+        c = c.wrapping_sub(e);
+        d = d.wrapping_add(g13(c.wrapping_add(k[7 * i - 4])));
+        b ^= g21(a.wrapping_add(k[7 * i - 5]));
+        c ^= g5(d.wrapping_add(k[7 * i - 6]));
+        // a <-> b, c <-> d, a <-> d
+        let (na, nb, nc, nd) = (c, a, d, b);
+        a = na;
+        b = nb;
+        c = nc;
+        d = nd;
+        i -= 1;
+    }
+    // X = c || a || d || b
+    let mut x = [0u8; 16];
+    put_le32(&mut x, 0, c);
+    put_le32(&mut x, 4, a);
+    put_le32(&mut x, 8, d);
+    put_le32(&mut x, 12, b);
+    x
+}
+
+pub fn encrypt(key: &[u8; 32], x: &[u8; 16]) -> [u8; 16] {
+    encrypt_with(key, x, g5, g13, g21)
+}
+pub fn decrypt(key: &[u8; 32], y: &[u8; 16]) -> [u8; 16] {
+    decrypt_with(key, y, g5, g13, g21)
+}
+
+// ------------------------------------------------------------------------------------------------------------
+// belt-wbl (6.2).  r = r_1 || r_2 || ... || r_n with |r_1| = ... = |r_{n-1}| = 128 bits, 0 < |r_n| <= 128,
+// n = ceil(|X| / 128), and r* denotes the LAST 128 bits of r (it straddles r_{n-1} and r_n when |r_n| < 128).
+//
+// Encryption (6.2.3), for i = 1, 2, ..., 2n:
+//   1) s <- r_1 ^ r_2 ^ ... ^ r_{n-1}
+//   2) r* <- r* ^ belt-block(s, K) ^ <i>_128
+//   3) r <- ShLo^128(r)            (the first 128 bits drop out, 128 zero bits enter at the end)
+//   4) r* <- s
+// Decryption (6.2.4), for i = 2n, ..., 2, 1:
+//   1) s <- r*
+//   2) r <- ShHi^128(r)            (the last 128 bits drop out, 128 zero bits enter at the front)
+//   3) r* <- r* ^ belt-block(s, K) ^ <i>_128
+//   4) r_1 <- s ^ r_2 ^ ... ^ r_{n-1}
+// |X| < 256 is outside the domain (the caller gets an error).
+//
+// The word r is kept as the list of its octets (capacity M, `len` of them in use); the blocks r_1..r_n are read
+// out of it explicitly (`block(r, j)` is r_j) and every step builds a *new* word from the old one.
+
+/// r_j (1-based), for a full block (j <= n-1, or j = n when 16 | len).
+fn block<const M: usize>(r: &[u8; M], j: usize) -> [u8; 16] {
+    let mut b = [0u8; 16];
+    let mut t = 0;
+    while t < 16 {
+        b[t] = r[16 * (j - 1) + t];
+        t += 1;
+    }
+    b
+}
+/// r* : the last 16 octets of the `len`-octet word.
+fn star<const M: usize>(r: &[u8; M], len: usize) -> [u8; 16] {
+    let mut b = [0u8; 16];
+    let mut t = 0;
+    while t < 16 {
+        b[t] = r[len - 16 + t];
+        t += 1;
+    }
+    b
+}
+fn set_star<const M: usize>(r: &mut [u8; M], len: usize, v: &[u8; 16]) {
+    let mut t = 0;
+    while t < 16 {
+        r[len - 16 + t] = v[t];
+        t += 1;
+    }
+}
+fn xor16(a: &[u8; 16], b: &[u8; 16]) -> [u8; 16] {
+    let mut o = [0u8; 16];
+    let mut t = 0;
+    while t < 16 {
+        o[t] = a[t] ^ b[t];
+        t += 1;
+    }
+    o
+}
+/// <i>_128 as 16 octets (little-endian number).
+fn num128(i: usize) -> [u8; 16] {
+    let mut o = [0u8; 16];
+    let mut v = i;
+    let mut t = 0;
+    while t < 8 {
+        o[t] = (v & 0xFF) as u8;
+        v >>= 8;
+        t += 1;
+    }
+    o
+}
+/// first ^ r_2 ^ ... ^ r_{n-1}
+fn sum_from<const M: usize>(first: [u8; 16], r: &[u8; M], n: usize) -> [u8; 16] {
+    let mut s = first;
+    let mut j = 2;
+    while j <= M / 16 && j <= n - 1 {
+        s = xor16(&s, &block(r, j));
+        j += 1;
+    }
+    s
+}
+
+/// Number of blocks n = ceil(len / 16).
+pub fn nblocks(len: usize) -> usize {
+    (len + 15) / 16
+}
+
+/// belt-wbl encryption of the first `len` octets of `x` (32 <= len <= M, M = capacity of the model's word) with the
+/// block encryption `e` = belt-block(., K) as a parameter (leaf `belt_block_raw(., key)` of the crate, on octet
+/// strings).  Octets beyond `len` are returned as 0.  None: outside the domain.
+pub fn wblock_enc_with<const M: usize, E: Fn(&[u8; 16]) -> [u8; 16]>(x: &[u8; M], len: usize, e: E) -> Option<[u8; M]> {
+    if len < 32 || len > M {
+        return None;
+    }
+    let n = nblocks(len);
+    let mut r = [0u8; M];
+    let mut t = 0;
+    while t < M {
+        if t < len {
+            r[t] = x[t];
+        }
+        t += 1;
+    }
+    let mut i = 1;
+    while i <= 2 * ((M + 15) / 16) && i <= 2 * n {
+        // 1) s <- r_1 ^ ... ^ r_{n-1}
+        let s = sum_from(block(&r, 1), &r, n);
+        // 2) r* <- r* ^ belt-block(s) ^ <i>
+        let mut q = r;
+        let v = xor16(&xor16(&star(&r, len), &e(&s)), &num128(i));
+        set_star(&mut q, len, &v);
+        // 3) r <- ShLo^128(r)
+        let mut sh = [0u8; M];
+        t = 0;
+        while t < M {
+            if t + 16 < len {
+                sh[t] = q[t + 16];
+            }
+            t += 1;
+        }
+        // 4) r* <- s
+        set_star(&mut sh, len, &s);
+        r = sh;
+        i += 1;
+    }
+    Some(r)
+}
+
+/// belt-wbl decryption, same conventions.
+pub fn wblock_dec_with<const M: usize, E: Fn(&[u8; 16]) -> [u8; 16]>(y: &[u8; M], len: usize, e: E) -> Option<[u8; M]> {
+    if len < 32 || len > M {
+        return None;
+    }
+    let n = nblocks(len);
+    let mut r = [0u8; M];
+    let mut t = 0;
+    while t < M {
+        if t < len {
+            r[t] = y[t];
+        }
+        t += 1;
+    }
+    let mut c = 0;
+    while c < 2 * ((M + 15) / 16) && c < 2 * n {
+        let i = 2 * n - c;
+        // 1) s <- r*
+        let s = star(&r, len);
+        // 2) r <- ShHi^128(r)
+        let mut sh = [0u8; M];
+        t = 0;
+        while t < M {
+            if t >= 16 && t < len {
+                sh[t] = r[t - 16];
+            }
+            t += 1;
+        }
+        // 3) r* <- r* ^ belt-block(s) ^ <i>
+        let v = xor16(&xor16(&star(&sh, len), &e(&s)), &num128(i));
+        set_star(&mut sh, len, &v);
+        // 4) r_1 <- s ^ r_2 ^ ... ^ r_{n-1}
+        let r1 = sum_from(s, &sh, n);
+        t = 0;
+        while t < 16 {
+            sh[t] = r1[t];
+            t += 1;
+        }
+        r = sh;
+        c += 1;
+    }
+    Some(r)
+}
+
+/// Octet-string view of the crate's word-level block function, for use as `e`.
+pub fn block_words_to_octets(w: [u32; 4]) -> [u8; 16] {
+    let mut o = [0u8; 16];
+    put_le32(&mut o, 0, w[0]);
+    put_le32(&mut o, 4, w[1]);
+    put_le32(&mut o, 8, w[2]);
+    put_le32(&mut o, 12, w[3]);
+    o
+}
+pub fn block_octets_to_words(b: &[u8; 16]) -> [u32; 4] {
+    [le32(b, 0), le32(b, 4), le32(b, 8), le32(b, 12)]
+}
+
+/// Both directions of belt-wbl use belt-block *encryption* only.
+pub fn wblock_enc<const M: usize>(key: &[u8; 32], x: &[u8; M], len: usize) -> Option<[u8; M]> {
+    wblock_enc_with(x, len, |b| encrypt(key, b))
+}
+pub fn wblock_dec<const M: usize>(key: &[u8; 32], y: &[u8; M], len: usize) -> Option<[u8; M]> {
+    wblock_dec_with(y, len, |b| encrypt(key, b))
+}
+
+/// The same transformation for whole numbers of blocks, on an explicit list r_1..r_N (used to cross-check the
+/// octet-list formulation natively; N >= 2).
+pub fn wblock_enc_blocks<const N: usize, E: Fn(&[u8; 16]) -> [u8; 16]>(x: &[[u8; 16]; N], e: E) -> [[u8; 16]; N] {
+    let mut r = *x;
+    let mut i = 1;
+    while i <= 2 * N {
+        let mut s = r[0];
+        let mut j = 1;
+        while j < N - 1 {
+            s = xor16(&s, &r[j]);
+            j += 1;
+        }
+        let last = xor16(&xor16(&r[N - 1], &e(&s)), &num128(i));
+        let mut nr = [[0u8; 16]; N];
+        j = 0;
+        while j + 2 < N {
+            nr[j] = r[j + 1];
+            j += 1;
+        }
+        nr[N - 2] = last;
+        nr[N - 1] = s;
+        r = nr;
+        i += 1;
+    }
+    r
+}
+pub fn wblock_dec_blocks<const N: usize, E: Fn(&[u8; 16]) -> [u8; 16]>(y: &[[u8; 16]; N], e: E) -> [[u8; 16]; N] {
+    let mut r = *y;
+    let mut i = 2 * N;
+    while i >= 1 {
+        let s = r[N - 1];
+        let mut nr = [[0u8; 16]; N];
+        let mut j = 1;
+        while j < N {
+            nr[j] = r[j - 1];
+            j += 1;
+        }
+        nr[N - 1] = xor16(&xor16(&nr[N - 1], &e(&s)), &num128(i));
+        let mut r1 = s;
+        j = 1;
+        while j < N - 1 {
+            r1 = xor16(&r1, &nr[j]);
+            j += 1;
+        }
+        nr[0] = r1;
+        r = nr;
+        i -= 1;
+    }
+    r
+}
